@@ -26,7 +26,7 @@ META = {
               "astropy NDDataArray -> holder of the data array (HDF5 job; the real NssGrid constructor, meta and axes code runs)"],
     "assumptions": ["REAL mode", "rows non-decreasing, query strictly inside (row[0] < x < row[-1]) as in the statement's quantifier"],
 }
-LEDGER = {"quick": 238, "thorough": 330}
+LEDGER = {"quick": 214, "thorough": 300}
 MOD = "nuspacesim.utils.interp"
 
 
@@ -44,12 +44,10 @@ def vec_run(M, n):
             for k in range(M - 1):
                 C.assume(z3.Real(f"xs{r}_{k}") <= z3.Real(f"xs{r}_{k+1}"))
             C.assume(z3.Real(f"xs{r}_0") < z3.Real(f"x{r}"), z3.Real(f"x{r}") < z3.Real(f"xs{r}_{M-1}"))
-        with load.Tracer(watch=["vec_1d_interp"]) as tr:
-            y = ns["vec_1d_interp"](xs, ys, x)
-        loc = tr.locals.get("vec_1d_interp", {})
+        y = ns["vec_1d_interp"](xs, ys, x)
+        # (claims are stated on the returned values only: nothing here depends on the names of the
+        # implementation's local variables)
         claims = {"one output per row": z3.BoolVal(y.shape == (n,))}
-        lo, hi = loc.get("lo"), loc.get("hi")
-        claims["exactly one lower and one upper bracket index per row"] = z3.BoolVal(lo is not None and len(lo) == n and len(hi) == n)
         for r in range(n):
             X = z3.Real(f"x{r}")
             ref = z3.RealVal(0)
@@ -58,17 +56,13 @@ def vec_run(M, n):
                 ya, yb = z3.Real(f"ys{k}"), z3.Real(f"ys{k+1}")
                 ref = z3.If(z3.And(a < X, X <= b), ya + (X - a) * (yb - ya) / (b - a), ref)
             claims[f"row {r}: equals piecewise-linear interpolation"] = y[r].term() == ref
-            if lo is not None and len(lo) == n:
-                k0, k1 = int(hi[r]), int(lo[r])
-                claims[f"row {r}: bracket is adjacent and contains the query"] = z3.And(
-                    z3.BoolVal(k1 == k0 + 1), z3.Real(f"xs{r}_{k0}") < X, X <= z3.Real(f"xs{r}_{k1}"))
         inputs = {f"x{r}": z3.Real(f"x{r}") for r in range(n)}
         for r in range(n):
             for k in range(M):
                 inputs[f"xs{r}_{k}"] = z3.Real(f"xs{r}_{k}")
         for k in range(M):
             inputs[f"ys{k}"] = z3.Real(f"ys{k}")
-        return harness.Out(claims=claims, inputs=inputs, observe={"y": y}, info={"brackets": None if lo is None else [int(v) for v in lo]})
+        return harness.Out(claims=claims, inputs=inputs, observe={"y": y})
 
     return run
 
